@@ -2,7 +2,10 @@ module verifharness_cluster
 
 go 1.19
 
-require github.com/innovationb1ue/RedisGO v0.0.0
+require (
+	github.com/innovationb1ue/RedisGO v0.0.0
+	go.etcd.io/etcd/raft/v3 v3.6.0-alpha.0
+)
 
 require (
 	github.com/beorn7/perks v1.0.1 // indirect
@@ -21,7 +24,6 @@ require (
 	go.etcd.io/etcd/api/v3 v3.6.0-alpha.0 // indirect
 	go.etcd.io/etcd/client/pkg/v3 v3.6.0-alpha.0 // indirect
 	go.etcd.io/etcd/pkg/v3 v3.6.0-alpha.0 // indirect
-	go.etcd.io/etcd/raft/v3 v3.6.0-alpha.0 // indirect
 	go.etcd.io/etcd/server/v3 v3.0.0-00010101000000-000000000000 // indirect
 	go.uber.org/atomic v1.7.0 // indirect
 	go.uber.org/multierr v1.8.0 // indirect
